@@ -1,4 +1,9 @@
 import CCV.Drv.C13
+import CCV.Drv.C19
+import CCV.Drv.C09
+import CCV.Drv.C18
+import CCV.Drv.C17
+import CCV.Drv.C06
 import CCV.Drv.C11
 import CCV.Drv.C15
 import CCV.Drv.C08
@@ -19,6 +24,11 @@ open CCV.Drv
 def dispatch (line : String) : String :=
   match line.trimAscii.toString.splitOn " " with
   | "C13" :: rest => C13.handle rest
+  | "C19" :: rest => C19.handle rest
+  | "C09" :: rest => C09.handle rest
+  | "C18" :: rest => C18.handle rest
+  | "C17" :: rest => C17.handle rest
+  | "C06" :: rest => C06.handle rest
   | "C11" :: rest => C11.handle rest
   | "C15" :: rest => C15.handle rest
   | "C08" :: rest => C08.handle rest
